@@ -192,6 +192,12 @@ type Server struct {
 	next http.Handler
 }
 
+// oneWrap wraps once and returns a function with Wrap's signature that serves
+// every request through that one wrapped handler.
+func oneWrap(wrap func(http.Handler) http.Handler) func(http.Handler) http.Handler {
+	return NewServer(wrap).Wrap
+}
+
 func NewServer(wrap func(http.Handler) http.Handler) *Server {
 	s := &Server{}
 	s.h = wrap(http.HandlerFunc(func(w http.ResponseWriter, r *http.Request) {
